@@ -53,7 +53,22 @@ func (c Contour[T]) Bounds() geom.Rect[T] {
 			minY = p.Y
 		}
 	}
-	return geom.NewRect(minX, minY, 1+maxX-minX, 1+maxY-minY)
+	return geom.NewRect(minX, minY, extent(minX, maxX), extent(minY, maxY))
+}
+
+// extent returns the size of a bounding rectangle that starts at lo and has to hold hi: 1+hi-lo. For coordinates of
+// large magnitude the 1 is absorbed by rounding, which would leave hi outside the half-open rectangle (or even make it
+// empty), so in that case the size is widened to the smallest value that puts hi inside.
+func extent[T constraints.Float](lo, hi T) T {
+	size := 1 + hi - lo
+	if !(hi < lo+size) {
+		limit := xmath.MaxValue[T]()
+		size = xmath.Nextafter(hi, limit) - lo
+		for i := 0; i < 4 && !(hi < lo+size); i++ {
+			size = xmath.Nextafter(size, limit)
+		}
+	}
+	return size
 }
 
 // Contains returns true if the point is contained by the contour.
